@@ -167,6 +167,33 @@ def generate(rng, tier, seed):
     for ver in "BD":
         for c, *_ in boundary_cases(rng, ver, tier):
             yield c
+    # large genuine blocks: the authenticated data (header incl. optional blocks + key data) runs to 8-9 kB, past every size at which
+    # a MAC routine might split its input into segments or buffers (512 ... 8192); a substitution anywhere - in the fixed fields, and
+    # every ~500 characters through optional blocks and key data, so in every segment whatever its size - must still be rejected
+    for ver, (bs, ksizes, ml) in VERS.items():
+        kbpk = rb(rng, ksizes[-1])
+        big = []
+        big.append((make_header(rng, ver, rand_blocks(rng, 4, [2040])), rb(rng, 16)))
+        big.append((make_header(rng, ver, []), rb(rng, 4400)))
+        for h, key in big:
+            try:
+                G = tr31.wrap(kbpk, h, key, None)
+                hl = tr31.Header().load(G)
+            except Exception as e:      # reported by C01 / C12; here only genuine blocks are of interest
+                continue
+            n = len(G)
+            c = Case(f"{ver}:large-genuine", {"len": n})
+            r = unwrap_case(c, kbpk, G)
+            if not r.ok or r.value[1] != key:
+                c.fail("large genuine block not unwrapped to its key")
+            yield c
+            for pos in sorted(set([5, 7, 8, 11, 12, 14] + list(range(16, n - 2 * ml, 509)) + [n - 2 * ml - 1])):
+                alpha = alphabet_for(pos, hl)
+                ch = rng.choice([a for a in alpha if a != G[pos]])
+                s = G[:pos] + ch + G[pos + 1:]
+                c = Case(f"{ver}:large-substitution", {"pos": pos, "len": n, "section": "header" if pos < hl else "binary"})
+                check_verdict(c, unwrap_case(c, kbpk, s), s, G, hl, key)
+                yield c
     full = tier == "thorough"
     for ver, (bs, ksizes, ml) in VERS.items():
         for ksize in ksizes:
